@@ -102,8 +102,11 @@ pub enum CutKind {
 
 #[derive(Debug, Clone)]
 pub struct Cut {
-    /// Absolute offset in the server->client byte stream.
+    /// Absolute offset in the server->client byte stream; `usize::MAX` when
+    /// the cut is placed at a frame boundary instead (see `before_frame`).
     pub at: usize,
+    /// Fire in place of the n-th next response frame (0 = the next one).
+    pub before_frame: Option<u32>,
     pub kind: CutKind,
     /// Bytes injected at the cut point before the kind takes effect.
     pub inject: Vec<u8>,
@@ -123,6 +126,8 @@ pub struct CqlConnState {
     pub rate_limit_ext: bool,
     /// Stream ids received and not yet answered by the server.
     pub outstanding: BTreeSet<i16>,
+    /// Marker of the request outstanding on each stream (if it has one).
+    pub outstanding_markers: BTreeMap<i16, u64>,
     pub user_requests: u64,
 }
 
@@ -375,7 +380,7 @@ impl World {
         self.bytes_to_server += bytes.len() as u64;
         {
             let c = &mut self.conns[conn];
-            if c.srv_closed || c.c2s_stalled {
+            if c.srv_closed {
                 return;
             }
             c.srv_rx.extend_from_slice(&bytes);
@@ -408,16 +413,36 @@ impl World {
         }
         if let Some(s) = stream {
             self.conns[conn].cql.outstanding.remove(&s);
+            self.conns[conn].cql.outstanding_markers.remove(&s);
         }
         let mut after: Option<CutKind> = None;
+        let mut garbage = false;
         {
             let c = &mut self.conns[conn];
-            if let Some(cut) = c.cut.as_ref() {
-                if c.s2c_sent + bytes.len() > cut.at || (c.s2c_sent + bytes.len() == cut.at && false) {
+            let mut frame_cut = false;
+            if let Some(cut) = c.cut.as_mut() {
+                if let Some(n) = cut.before_frame.as_mut() {
+                    if stream.is_some() {
+                        if *n == 0 {
+                            frame_cut = true;
+                        } else {
+                            *n -= 1;
+                        }
+                    }
+                }
+            }
+            if frame_cut {
+                let cut = c.cut.take().unwrap();
+                bytes = cut.inject.clone();
+                after = Some(cut.kind);
+                garbage = !cut.inject.is_empty();
+            } else if let Some(cut) = c.cut.as_ref() {
+                if c.s2c_sent + bytes.len() > cut.at {
                     let keep = cut.at.saturating_sub(c.s2c_sent);
                     bytes.truncate(keep);
                     bytes.extend_from_slice(&cut.inject);
                     after = Some(cut.kind);
+                    garbage = !cut.inject.is_empty();
                     c.cut = None;
                 }
             }
@@ -425,6 +450,12 @@ impl World {
         }
         if !bytes.is_empty() {
             self.push_s2c(conn, bytes);
+        }
+        if garbage {
+            self.fault(Fault::Garbage);
+        }
+        if after.is_some() {
+            self.probe("cut_fired");
         }
         if let Some(kind) = after {
             match kind {
@@ -506,9 +537,6 @@ impl World {
                 crate::shims::NET_BYTES_DELIVERED
                     .fetch_add(n, std::sync::atomic::Ordering::Relaxed);
                 let c = &mut self.conns[conn];
-                if c.s2c_stalled {
-                    return;
-                }
                 c.s2c_delivered += n;
                 c.cli_rx.extend(bytes);
                 if let Some(w) = c.reader_waker.take() {
@@ -517,9 +545,6 @@ impl World {
             }
             Ev::S2CFin { conn, rst } => {
                 let c = &mut self.conns[conn];
-                if c.s2c_stalled {
-                    return;
-                }
                 if rst {
                     c.cli_rst = true;
                 } else {
